@@ -113,6 +113,60 @@ pub fn term_failure(td: &TD) -> Option<String> {
         return Some("extraction order differs from the borrowing accessor".into());
     }
     if td.k.shape() == Shape::Image {
+        // the public borrowing iterator of images under the std adaptors (`nth`, `skip`, `step_by`,
+        // `last`, `count`, partial consumption first): the same items as the accessor's vector
+        {
+            use narsese::enum_narsese::ImageIterator;
+            let real = td.build();
+            let comps = real.get_components();
+            let mk = || ImageIterator::new(comps.iter().copied(), td.num);
+            let c = |t: &Term| canon_real(t);
+            let want = &with;
+            let r = observe(|| -> Option<String> {
+                let n = want.len();
+                if mk().count() != n {
+                    return Some("count() of the image iterator differs from the accessor's length".into());
+                }
+                if mk().last().map(c) != want.last().cloned() {
+                    return Some("last() of the image iterator differs from the accessor's last item".into());
+                }
+                for k in 0..=n {
+                    if mk().nth(k).map(c) != want.get(k).cloned() {
+                        return Some(format!("nth({}) of a fresh image iterator = {:?}, the accessor has {:?}", k, mk().nth(k).map(c), want.get(k)));
+                    }
+                }
+                for step in 1..=3usize {
+                    for skip in 0..=2usize {
+                        let got: Vec<String> = mk().skip(skip).step_by(step).map(c).collect();
+                        let exp: Vec<String> = want.iter().skip(skip).step_by(step).cloned().collect();
+                        if got != exp {
+                            return Some(format!("skip({}).step_by({}) over the image iterator = {:?}, over the accessor's vector {:?}", skip, step, got, exp));
+                        }
+                    }
+                }
+                // partial consumption, then a jump
+                for first in 0..n {
+                    for jump in 0..3usize {
+                        let mut it = mk();
+                        for _ in 0..first {
+                            it.next();
+                        }
+                        if it.nth(jump).map(c) != want.get(first + jump).cloned() {
+                            return Some(format!("after {} next() calls, nth({}) of the image iterator differs from item {} of the accessor", first, jump, first + jump));
+                        }
+                    }
+                    if n > 12 && first > 4 && first + 4 < n {
+                        continue;
+                    }
+                }
+                None
+            });
+            match r {
+                Obs::Ret(Some(w)) => return Some(w),
+                Obs::Ret(None) => {}
+                Obs::Panic(p) => return Some(format!("the image iterator panicked under an adaptor: {}", p)),
+            }
+        }
         if !is_image {
             return Some("is_image is false for an image".into());
         }
